@@ -29,7 +29,8 @@ OBLIGATIONS = [
      "statement": "every schedule: at most one thread is inside a critical section of _mutex"},
     {"id": "C09_REG", "theorem": "Iora.C09.worker_registered", "kind": "proved",
      "statement": "every schedule: a worker that has not returned is in _threads, or being joined, or self-removed and about to return (no worker runs tasks unregistered)"},
-    # P6_PLACEHOLDER
+    {"id": "C09_P6", "theorem": "Iora.C09.P6_workers_le_max", "kind": "proved",
+     "statement": "every schedule: |_threads| <= maxSize (initialSize <= maxSize)"},
     {"id": "C09_P4", "theorem": "Iora.C09.P4_refusal_reasons", "kind": "proved",
      "statement": "a submission is refused only when _accepting is false (draining), _shutdown is set, or the queue is at capacity; it is accepted only when none of these holds"},
     {"id": "C09_SK1", "theorem": "Iora.C09.skel_enqueueImpl", "kind": "conformance",
@@ -106,7 +107,7 @@ def gen_case(rng, hook, cat=None):
     if rng.chance(1, 3):
         ops += rng.choice([["stop"], ["sd"], ["d=100"], ["a=t:%d" % rng.below(nb)]])
     ops.append("x")
-    det = 1 if rng.chance(1, 25) else 0
+    det = 0   # DETACHED is excluded by hypothesis: its destructor returns while workers still use the object (use-after-free by design)
     lines = ["reset %d %d %d %d %d" % (init, mx, q, det, hook)] + bodies + ["main " + " ".join(ops)]
     seed = rng.range(1, 10 ** 9)
     run = "run %d %d %d %d" % (seed, idle, rng.choice([2, 8, 8, 50, 0]), rng.choice([0, 0, 0, 7]))
@@ -306,12 +307,12 @@ def monitor(case, r):
             if code not in (4, 7, 8):
                 continue
             what = {4: "stop()", 7: "shutdown()", 8: "~ThreadPool"}[code]
+            # every accepted task of the run must have finished before this return: nothing is accepted after a shutdown-type
+            # return, and what was accepted before it (even if the submitting call itself returns later) is joined
             for s in m["subs"]:
                 t = m["tasks"].get(s["id"])
-                if s["res"] == "a" and s["tick"] < q and (t is None or t["dt"] < 0 or t["dt"] > q):
+                if s["res"] == "a" and (t is None or t["dt"] < 0 or t["dt"] > q):
                     fails.append("P2: %s returned before accepted task %d had finished" % (what, s["id"]))
-                if s["res"] == "a" and s["tick"] > q:
-                    fails.append("P3: task %d accepted after %s returned" % (s["id"], what))
             for i, t in m["tasks"].items():
                 if t["st"] > q:
                     fails.append("P3: task %d started after %s returned" % (i, what))
@@ -367,7 +368,8 @@ def run(ctx: Ctx):
         if not quick:
             ctx.leanchecker(MODULES + ["IoraModel.Model.ThreadPool", "IoraModel.Lemmas.TpBase", "IoraModel.Lemmas.TpDefs", "IoraModel.Lemmas.TpLock",
                                        "IoraModel.Lemmas.TpCount", "IoraModel.Lemmas.TpEff", "IoraModel.Lemmas.TpWorkers", "IoraModel.Lemmas.TpWorkersStep",
-                                       "IoraModel.Lemmas.TpMain", "IoraModel.Lemmas.TpQuiesce", "IoraModel.Lemmas.TpAll", "IoraModel.Lemmas.TpAfter", "IoraModel.Lemmas.TpRefuse"])
+                                       "IoraModel.Lemmas.TpMain", "IoraModel.Lemmas.TpQuiesce", "IoraModel.Lemmas.TpAll", "IoraModel.Lemmas.TpAfter", "IoraModel.Lemmas.TpRefuse",
+                                       "IoraModel.Lemmas.TpSize"])
     else:
         ctx.cov["obligations"] = len(OBLIGATIONS)
     hb = ctx.build_harness(HARNESS, sanitize=True, flags=[DETSCHED])
@@ -378,17 +380,18 @@ def run(ctx: Ctx):
     if hb:
         # the implementation-only monitors run even when the proof layer is broken (DESIGN 5.2: search for the failing input)
         model_ok = bool(ok_build and ctx.model_argv("tp"))
-        if True:
-            cases = load_corpus(hook)
-            g = rng.fork("cases")
-            while len(cases) < n_cases:
-                cases.append(gen_case(g, hook))
-            results = run_all(ctx, hb, cases)
-            answers = run_model(ctx, cases, results) if model_ok else [None] * len(cases)
-            n_corr = 0
+        g = rng.fork("cases")
+        n_corr = [0]
+
+        def evaluate(cases, results, answers):
             for c, r, ans in zip(cases, results, answers):
                 dist[c["cat"].split(":")[0]] = dist.get(c["cat"].split(":")[0], 0) + 1
                 if r is None:
+                    continue
+                if r.get("done") and r["done"].split()[1] == "diverged" and (c["cat"].startswith("corpus") or c["cat"].startswith("tail")):
+                    # a directed witness schedule of another tree version (re-run below by seed) / a cut schedule that does not
+                    # replay (the join order follows the hash of pthread_t values, which differ between processes): not a result
+                    stats["replays_diverged"] = stats.get("replays_diverged", 0) + 1
                     continue
                 fails = monitor(c, r)
                 # statistics (measured)
@@ -419,7 +422,7 @@ def run(ctx: Ctx):
                         if len(f) > 6 and f[6] == "tp:popped":
                             stats["hook_points"] += 1
                 ctx.count_case("\n".join(c["lines"]) + c["run"] + (r.get("done") or ""), nontrivial=nontrivial)
-                if len(ctx.cov["samples"]) < 6 and g.chance(1, 40):
+                if len(ctx.cov["samples"]) < 6 and g.chance(1, 60):
                     ctx.sample({"cat": c["cat"], "lines": c["lines"], "run": c["run"], "mon": (r.get("mon") or "")[:300]})
                 if fails:
                     report(ctx, hb, c, r, ans, fails, "property")
@@ -443,9 +446,46 @@ def run(ctx: Ctx):
                             bad = "model and implementation disagree at `%s`: impl=`%s` model=`%s`" % (inp[:80], exp[:160], a[:160])
                             break
                 if bad:
-                    n_corr += 1
-                    if n_corr <= 3:
+                    n_corr[0] += 1
+                    if n_corr[0] <= 3:
                         report(ctx, hb, c, r, ans, [bad], "correspondence")
+
+        def wave(cases):
+            results = run_all(ctx, hb, cases)
+            answers = run_model(ctx, cases, results) if model_ok else [None] * len(cases)
+            evaluate(cases, results, answers)
+            return results
+
+        # wave 1: corpus + seeded random schedules
+        cases = load_corpus(hook)
+        n1 = (n_cases * 2) // 3
+        while len(cases) < n1:
+            cases.append(gen_case(g, hook))
+        res1 = wave(cases)
+        # wave 2: ADVERSARIAL schedules. A recorded schedule is cut at a random point and replayed; DetSched completes an exhausted
+        # replay list with "lowest enabled thread first, time-outs only when nothing else can run": from the cut on the controller
+        # (thread 0) has priority over submitters and workers, which are starved at whatever point they had reached (between
+        # pthread_create and registration, at the tp:popped hook, inside a body) while drain/stop/shutdown/the destructor run.
+        cases2 = []
+        for c, r in zip(cases, res1):
+            if len(cases2) >= n_cases - n1:
+                break
+            if r is None or not r.get("done"):
+                continue
+            if r["done"].split()[1] == "diverged" and c["cat"].startswith("corpus"):
+                f = c["run"].split()
+                cases2.append(dict(c, run=" ".join(f[:5]), cat=c["cat"] + ":by-seed"))
+                continue
+            mm = re.search(r"choices=(\S*)", r["done"])
+            ch = mm.group(1).split(",") if mm and mm.group(1) else []
+            if len(ch) < 8 or c["cat"].startswith("corpus") or " d=0" in c["lines"][-1]:
+                continue      # drain(0) = one hour of polling: with starved workers the controller would poll 72 000 times
+            cut = g.range(3, len(ch) - 1)
+            f = c["run"].split()
+            cases2.append(dict(c, run=" ".join(f[:5] + [",".join(ch[:cut])]), cat="tail:" + c["cat"]))
+        if cases2:
+            wave(cases2)
+        if True:
             if not quick:
                 tsan_stress(ctx)
     ctx.extra["input_distribution"] = dist
@@ -458,7 +498,7 @@ def run(ctx: Ctx):
         "start()/reset() (restart after stop) and setShutdownMode at run time are outside the model",
     ]
     ctx.assumptions += [
-        "ShutdownMode IMMEDIATE/GRACEFUL for P2/P3 (DETACHED detaches instead of joining: excluded by hypothesis CfgOk.joined, exercised by 4% of the runs with the P2/P3 monitors off)",
+        "ShutdownMode IMMEDIATE/GRACEFUL (DETACHED detaches instead of joining, its destructor returns while workers still use the object: excluded by hypothesis CfgOk.joined and not generated)",
         "maxSize >= 1 (CfgOk.max) and, for P6, initialSize <= maxSize",
         "no call on the pool is in flight on another thread when the destructor starts (C++ object lifetime); submitters are joined before `x`",
         "granularity: one step = one pthread operation + the code up to the next one (DetSched); atomics are pre-emption points only at IORA_VERIF_POINT(\"tp:popped\"); the theorems do not depend on _activeThreads/_busyThreads",
